@@ -1,0 +1,15 @@
+//go:build verif
+// +build verif
+
+package media
+
+import "sync/atomic"
+
+// verifInitConsumption gives a consumer the backlog limit configured with VerifSetMaxQLen from the
+// moment it is created (before the join replay), so that a lowered limit behaves like the built-in
+// one does in production.
+func verifInitConsumption(c *consumption) {
+	if n := int(atomic.LoadInt32(&verifMaxQLen)); n > 0 {
+		c.maxQLen = n
+	}
+}
